@@ -79,6 +79,25 @@ Dim(g) ==
       [] g.t = "Triangle" -> IF Cross(g.a, g.b, g.c) # 0 THEN 2 ELSE IF g.a = g.b /\ g.b = g.c THEN 0 ELSE 1
       [] g.t = "GeometryCollection" -> IF Len(g.gs) = 0 THEN -1 ELSE SetMax({Dim(g.gs[i]) : i \in DOMAIN g.gs})
 
+\* ---- segments and vertices of a geometry (sets)
+RingSegs(r) == {<<r[i], r[i+1]>> : i \in Edges(r)}
+PathSegs(cs) == IF Len(cs) = 1 THEN {<<cs[1], cs[1]>>} ELSE RingSegs(cs)
+PolySegs(ext, holes) == RingSegs(ext) \cup UNION {RingSegs(holes[i]) : i \in DOMAIN holes}
+RECURSIVE Segs(_)
+Segs(g) ==
+    CASE g.t = "Point" -> {<<g.c, g.c>>}
+      [] g.t = "MultiPoint" -> {<<g.cs[i], g.cs[i]>> : i \in DOMAIN g.cs}
+      [] g.t = "Line" -> {<<g.a, g.b>>}
+      [] g.t = "LineString" -> PathSegs(g.cs)
+      [] g.t = "MultiLineString" -> UNION {PathSegs(g.ls[i]) : i \in DOMAIN g.ls}
+      [] g.t = "Polygon" -> PolySegs(g.ext, g.holes)
+      [] g.t = "MultiPolygon" -> UNION {PolySegs(g.ps[i].ext, g.ps[i].holes) : i \in DOMAIN g.ps}
+      [] g.t = "Rect" -> RingSegs(RectRing(g.a, g.b))
+      [] g.t = "Triangle" -> RingSegs(TriRing(g.a, g.b, g.c))
+      [] g.t = "GeometryCollection" -> UNION {Segs(g.gs[i]) : i \in DOMAIN g.gs}
+\* no segment of a crosses a segment of b properly (all contacts are at vertices or along edges)
+NoProperCrossing(a, b) == \A s \in Segs(a), t \in Segs(b) : ~SegSegProper(s[1], s[2], t[1], t[2])
+
 -----------------------------------------------------------------------------
 \* Witness lattice.  Kind(p) is the dimension a witness at p can prove.
 Fine(lo, hi) == (lo .. hi) \X (lo .. hi)
